@@ -40,6 +40,16 @@ def run(ctx, rep):
             # processed entries come from the queued list only (loop over its nodes)
             okh = oko = okins and any(a == 'node' and p for a, p in gs)
             rep.check(okf and okh and oko, 'R-C18-1', 'scan_sub: %s guarded by %s()==0, not hidden, not an own file' % (adm, flt), c.loc(), 'filter %s hidden %s own %s' % (okf, okh, oko), function='scan_sub', construct='%s admission' % adm)
+    # a directory that is stored as an object of the array (an "empty directory") is a leaf like a file: the descent query
+    # (filter_subdir) includes by default so that the rules can be applied to what is inside, and says nothing about the
+    # directory itself when only include rules are given
+    rep.rule('R-C18-1e', 'scan_sub: a directory is stored as empty directory only if the leaf query (filter_emptydir: default taken from the last rule) selects it, not merely because the scanner descended into it', 1)
+    for c in f.calls('scan_emptydir'):
+        gs = guards_of(f, c)
+        okl = any(a.startswith('filter_emptydir(') and not p for a, p in gs)
+        rep.check(okl, 'R-C18-1e', 'scan_sub: scan_emptydir guarded by filter_emptydir()==0', c.loc(),
+                  'leaf query consulted' if okl else 'the only rule test before the directory is stored is the descent query filter_subdir(), which includes every directory no rule matches: with a rule list that ends in an include (`include /keep/` alone) unrelated directories whose files were all filtered out enter the array as empty directories; check complains when they go and fix re-creates them',
+                  function='scan_sub', construct='scan_emptydir leaf query')
     # special files are reported only when not excluded
     fp = [c for c in f.calls('filter_path')]
     rep.check(len(fp) >= 3, 'R-C18-1', 'scan_sub: special files consult filter_path before being reported', f.file, '%d filter_path sites' % len(fp), function='scan_sub', construct='special files')
@@ -227,6 +237,9 @@ def filter_semantics_rule(P, rep, rid='R-C18-6'):
               [(p, 1, di) for p in ('d', 'e/d', 'ex') for di in (0, 1)]
     bad = None
     nrun = 0
+    prune_bad = []
+    nprune = 0
+    files_q = [q[0] for q in queries if q[1] == 0]
     for rl in lists:
         m = machine()
         R = m.R
@@ -266,9 +279,28 @@ def filter_semantics_rule(P, rep, rid='R-C18-6'):
                         ' (descent)' if def_inc else '', 'includes' if got == 0 else 'excludes', 'include' if want == 0 else 'exclude')
             elif bad is None:
                 rep.ok(rid, '%s | %s' % (rl, path))
+        for di, D in enumerate(('d', 'e', 'e/d', 'd/e', 'ex')):
+            sp = RG.P_(('str', 'pd%d' % di), 0); m.put(R, sp, D)
+            got = RG.signed(R.run(fe, 0, [lst, 0, dsk, sp, 1, 1], frame=2000 + di) & 0xffffffff, 32)
+            if got == 0:
+                continue
+            nprune += 1
+            inc = [f_ for f_ in files_q if f_.startswith(D + '/') and spec(rl, f_, False, False) == 0]
+            if inc:
+                prune_bad.append('rules %s: directory %r is not descended into, but the first rule matching the file %r is an include: the file never reaches the rules and stays out of the array' % (
+                    ['%s %s' % ('include' if d > 0 else 'exclude', p_) for d, p_ in rl], D, inc[0]))
     if bad:
         rep.fail(rid, 'filter decision function', fe.file, bad, function='filter_element', construct='filter semantics')
     rep.extra['filter_evaluations'] = nrun
+    # ---- pruning: scan does not descend into a directory for which the descent query (is_dir = 1, default include) answers
+    # "excluded"; the files below are then never shown to the rules.  First-match semantics survives that only if every file below
+    # such a directory is excluded by the documented rules as well.
+    rep.rule(rid + 'p', 'a directory that the descent query prunes contains only files that the documented first-match rules exclude (same domain of rule lists; files up to two levels below)', 100)
+    if prune_bad:
+        rep.fail(rid + 'p', 'directory pruning vs first match', fe.file, prune_bad[0] + ' (%d rule lists of the domain disagree)' % len(prune_bad), function='filter_element', construct='directory pruned before an earlier include is tried')
+    else:
+        for _ in range(nprune):
+            rep.ok(rid + 'p', 'pruned directory')
 
 
 FOLLOWING_PROBES = {'stat', 'stat64', 'access', 'open', 'fopen', 'open_noatime', 'realpath'}
